@@ -10,6 +10,7 @@ pub mod c10;
 pub mod c11;
 pub mod c12;
 pub mod c13;
+pub mod c15;
 pub mod c17;
 pub mod c18;
 pub mod c19;
@@ -27,6 +28,8 @@ pub fn lookup(name: &str) -> Option<fn(&mut Ctx)> {
         "C11" => Some(c11::run),
         "C12" => Some(c12::run),
         "C13" => Some(c13::run),
+        "C15" => Some(c15::run),
+        "C16" => Some(c15::run_c16),
         "C17" => Some(c17::run),
         "C18" => Some(c18::run),
         "C19" => Some(c19::run),
